@@ -65,6 +65,46 @@ class C01(Cfg):
         return "RT:%s:%s:%s:wf=%s" % (kind, st, ans.split(" ", 1)[0], (m or {}).get("wf", "?"))
 
 
+class C02(Cfg):
+    rule = ("ENC <message>: the type-directed well-formed messages of C01 (every payload kind incl. network trace, both "
+            "byte orders, all 32 header flag sets, all MSIN nibbles, all argument kinds x widths x VARI/TRAI/SCOD, boundary "
+            "lengths up to 65535); PARSE <storage> - <bytes>: the decode stream (canonical encodings, dialect rewrites, "
+            "structured mutations of every length field, truncation at EVERY offset of a sample, splices, noise, junk in "
+            "front, storage mode flipped); non-trivial = a message is decoded / encoded; distinct by request")
+    observable = "ENC: the bytes; PARSE: verdict (item with every field and the remainder length | incomplete | reject)"
+    explanation = ("C02_encode / C02_decode relate the writer / parser model to the reference codec of Spec/Codec.lean for "
+                   "all messages / all byte strings; the run compares Message::as_bytes and dlt_message with the model AND "
+                   "evaluates the reference codec on the same inputs against the crate's own answers")
+
+    def nontrivial(self, req, ans, m=None):
+        return ans.startswith("OK") or (req.startswith("ENC") and not ans.startswith("PANIC"))
+
+    def classify(self, req, ans, m=None):
+        t = ans.split()
+        if req.startswith("ENC"):
+            return "ENC:" + ("PANIC" if ans.startswith("PANIC") else "bytes")
+        if t[0] == "OK":
+            return "PARSE:" + " ".join(t[2:3])
+        return "PARSE:" + " ".join(t[:2])
+
+    def spec_ok(self, req, ans, spec):
+        """the crate's own answer against the reference codec (Spec/Codec.lean)"""
+        if req.startswith("ENC"):
+            sp, wf = spec.split(" wf=")
+            if wf != "1":
+                return True
+            return ans.split(" ", 1)[0] == sp
+        if spec == "INCOMPLETE":
+            return ans.startswith("ERR INCOMPLETE")
+        if spec == "REJECT":
+            return ans.startswith("ERR HICKUP") or ans.startswith("ERR UNRECOVERABLE")
+        return ans == spec
+
+    def project_corr(self, ans):
+        # the needed-hint of an incomplete verdict is C05's subject
+        return "ERR INCOMPLETE" if ans.startswith("ERR INCOMPLETE") else ans
+
+
 class C03(Cfg):
     rule = ("NOPANIC/CONSUME/SKIPSH/FWD/ZTS requests over the malformed decode stream (canonical encodings, structured "
             "mutations of every length field, truncations, splices, noise, >64 KiB, guard-targeted lengths for all 32 flag "
@@ -446,7 +486,7 @@ class C10(Cfg):
         return re.sub(r" n=\d+$", "", spec) == ans
 
 
-REGISTRY = {c.__name__: c for c in (C01, C03, C04, C05, C06, C11, C12, C07, C08, C09, C10, C13, C14, C15, C16, C17, C18, C19)}
+REGISTRY = {c.__name__: c for c in (C01, C02, C03, C04, C05, C06, C11, C12, C07, C08, C09, C10, C13, C14, C15, C16, C17, C18, C19)}
 
 
 def get(prop):
